@@ -5,6 +5,7 @@
 package main
 
 import (
+	"bytes"
 	"encoding/hex"
 	"encoding/json"
 	"fmt"
@@ -51,6 +52,13 @@ type In struct {
 	BaseAddr  string   `json:"base_addr,omitempty"` // address the unperturbed message verifies to
 	OwnAddr   string   `json:"own_addr,omitempty"`  // build-*: the node's own address
 	APITypes  string   `json:"apitypes,omitempty"`  // hash-*: digest by go-ethereum's generic EIP-712
+	// hash-*: right before the measured call the same long-lived signer, on the same goroutine, was
+	// asked for something it refuses: "construct:<amount>" or "verify:<amount>"
+	AfterRefused string `json:"after_refused,omitempty"`
+	// the input embeds something the implementation itself produced in an earlier step (the signed
+	// bid of a hash-commit case): when that step was already wrong this case fails as a consequence
+	// and does not replay on its own; the check prefers underived cases for its replay file
+	Derived bool `json:"derived,omitempty"`
 }
 type Obs struct {
 	Outcome string `json:"outcome"` // ok | err | panic
@@ -273,8 +281,48 @@ func main() {
 	other := preconfsigner.NewSigner(vh.NewKeySigner(rng))
 	own := hx(ks.GetAddress().Bytes())
 
+	refuse := func(spec string) {
+		kind, bad, ok := strings.Cut(spec, ":")
+		if !ok {
+			return
+		}
+		if kind == "construct" {
+			_, _ = s.ConstructSignedBid("ab", bad, 5, 6, 7)
+			return
+		}
+		_, _ = s.VerifyBid(&preconfpb.Bid{TxHash: "ab", BidAmount: bad, BlockNumber: 5, DecayStartTimestamp: 6, DecayEndTimestamp: 7,
+			Digest: rng.Bytes(32), Signature: rng.Bytes(65)})
+		_, _ = s.VerifyPreConfirmation(&preconfpb.PreConfirmation{Bid: &preconfpb.Bid{TxHash: "ab", BidAmount: bad, BlockNumber: 5, Digest: rng.Bytes(32), Signature: rng.Bytes(65)},
+			Digest: rng.Bytes(32), Signature: rng.Bytes(65)})
+	}
 	runCase := func(in In) {
 		switch in.Kind {
+		case "hash-bid":
+			refuse(in.AfterRefused)
+			b := fromJ(in.Bid)
+			nb, err := s.ConstructSignedBid(b.TxHash, b.BidAmount, b.BlockNumber, b.DecayStartTimestamp, b.DecayEndTimestamp)
+			o := Obs{Outcome: "err"}
+			if err == nil {
+				if d, err := preconfsigner.GetBidHash(nb); err == nil {
+					o = Obs{Outcome: "ok", Digest: hx(nb.Digest), Sig: hx(nb.Signature)}
+					if !bytes.Equal(d, nb.Digest) {
+						o.Outcome = "signed-digest-differs-from-hash-function"
+					}
+				}
+			}
+			out.Emit(in, o)
+		case "hash-commit":
+			refuse(in.AfterRefused)
+			o := Obs{Outcome: "err"}
+			if c, err := s.ConstructPreConfirmation(fromJ(in.Bid)); err == nil {
+				if d, err := preconfsigner.GetPreConfirmationHash(c); err == nil {
+					o = Obs{Outcome: "ok", Digest: hx(c.Digest), Sig: hx(c.Signature)}
+					if !bytes.Equal(d, c.Digest) {
+						o.Outcome = "signed-digest-differs-from-hash-function"
+					}
+				}
+			}
+			out.Emit(in, o)
 		case "bid":
 			out.Emit(in, verifyBid(s, fromJ(in.Bid)))
 		case "commit":
@@ -313,6 +361,14 @@ func main() {
 				amt = []string{"010", "0644", "00012", "09", "0180", "0100", "01000000000000000000", "007"}[rng.Intn(8)]
 			}
 			blk, st, en := g.i63(true), g.i63(true), g.i63(true)
+			refused := ""
+			if i%7 == 3 {
+				// a call the signer refuses (amount outside the domain), on the same long-lived signer
+				// and goroutine, right before the measured one: it must leave nothing behind
+				bad := []string{"not-a-number", "-5", "", "1e9", "115792089237316195423570985008687907853269984665640564039457584007913129639936"}[rng.Intn(5)]
+				refused = []string{"construct:", "verify:"}[rng.Intn(2)] + bad
+				refuse(refused)
+			}
 			b, err := s.ConstructSignedBid(tx, amt, blk, st, en)
 			if err != nil {
 				if i%9 == 4 && tx != "" && blk != 0 { // a spelling the node's own signing function refuses
@@ -321,23 +377,34 @@ func main() {
 				}
 				continue
 			}
+			// the digest the signer put into the message it signed, which must also be what the
+			// exported hashing function returns for that message
 			d, err := preconfsigner.GetBidHash(b)
-			o := Obs{Outcome: "ok", Digest: hx(d), Sig: hx(b.Signature)}
+			o := Obs{Outcome: "ok", Digest: hx(b.Digest), Sig: hx(b.Signature)}
 			if err != nil {
 				o = Obs{Outcome: "err"}
+			} else if !bytes.Equal(d, b.Digest) {
+				o.Outcome = "signed-digest-differs-from-hash-function"
 			}
-			out.Emit(In{Tag: "hash-bid", Kind: "hash-bid", Bid: toJ(b), Prims: []Prim{}, APITypes: apitypesBid(b, false)}, o)
+			out.Emit(In{Tag: "hash-bid", Kind: "hash-bid", Bid: toJ(b), Prims: []Prim{}, APITypes: apitypesBid(b, false), AfterRefused: refused}, o)
+			if refused != "" && i%2 == 0 {
+				refuse(refused)
+			} else {
+				refused = ""
+			}
 			c, err := s.ConstructPreConfirmation(b)
 			if err != nil {
-				out.Emit(In{Tag: "hash-commit", Kind: "hash-commit", Bid: toJ(b), Prims: []Prim{}}, Obs{Outcome: "err"})
+				out.Emit(In{Tag: "hash-commit", Kind: "hash-commit", Bid: toJ(b), Prims: []Prim{}, Derived: true}, Obs{Outcome: "err"})
 				continue
 			}
 			d2, err := preconfsigner.GetPreConfirmationHash(c)
-			o = Obs{Outcome: "ok", Digest: hx(d2), Sig: hx(c.Signature)}
+			o = Obs{Outcome: "ok", Digest: hx(c.Digest), Sig: hx(c.Signature)}
 			if err != nil {
 				o = Obs{Outcome: "err"}
+			} else if !bytes.Equal(d2, c.Digest) {
+				o.Outcome = "signed-digest-differs-from-hash-function"
 			}
-			out.Emit(In{Tag: "hash-commit", Kind: "hash-commit", Bid: toJ(b), Prims: []Prim{}, APITypes: apitypesBid(b, true)}, o)
+			out.Emit(In{Tag: "hash-commit", Kind: "hash-commit", Bid: toJ(b), Prims: []Prim{}, APITypes: apitypesBid(b, true), AfterRefused: refused, Derived: true}, o)
 			if i%6 != 0 {
 				continue
 			}
@@ -381,10 +448,10 @@ func main() {
 				}
 				oc, err := s.ConstructPreConfirmation(ob)
 				if err != nil {
-					out.Emit(In{Tag: "hash-commit-same-digest", Kind: "hash-commit", Bid: toJ(ob), Prims: []Prim{}}, Obs{Outcome: "err"})
+					out.Emit(In{Tag: "hash-commit-same-digest", Kind: "hash-commit", Bid: toJ(ob), Prims: []Prim{}, Derived: true}, Obs{Outcome: "err"})
 					continue
 				}
-				out.Emit(In{Tag: "hash-commit-same-digest", Kind: "hash-commit", Bid: toJ(ob), Prims: []Prim{}, APITypes: apitypesBid(ob, true)},
+				out.Emit(In{Tag: "hash-commit-same-digest", Kind: "hash-commit", Bid: toJ(ob), Prims: []Prim{}, APITypes: apitypesBid(ob, true), Derived: true},
 					Obs{Outcome: "ok", Digest: hx(oc.Digest), Sig: hx(oc.Signature)})
 			}
 		}
@@ -412,6 +479,16 @@ func main() {
 		b, err := signer.ConstructSignedBid(tx, amt, blk, st, en)
 		if err != nil {
 			continue
+		}
+		if i%60 == 7 { // now and then a bid whose digest starts with a zero byte
+			for t := 0; t < 4000 && b.Digest[0] != 0; t++ {
+				if blk++; blk == 0 {
+					blk = 1
+				}
+				if b2, err := signer.ConstructSignedBid(tx, amt, blk, st, en); err == nil {
+					b = b2
+				}
+			}
 		}
 		// completeness: the node's own message verifies to its own address
 		vo := verifyBid(s, b)
@@ -465,6 +542,13 @@ func main() {
 			y, _ := signer.ConstructSignedBid(x.TxHash+"1", x.BidAmount, x.BlockNumber, x.DecayStartTimestamp, x.DecayEndTimestamp)
 			x.Digest = y.Digest
 		})
+		// digests that are not 32 bytes but contain / extend to the real one
+		mut("p-digest-junk-prefix", func(x *preconfpb.Bid) { x.Digest = append(rng.Bytes(1+rng.Intn(3)), x.Digest...) })
+		mut("p-digest-junk-prefix", func(x *preconfpb.Bid) { x.Digest = append(rng.Bytes(32), x.Digest...) })
+		mut("p-digest-junk-suffix", func(x *preconfpb.Bid) { x.Digest = append(append([]byte{}, x.Digest...), rng.Bytes(1+rng.Intn(32))...) })
+		if b.Digest[0] == 0 {
+			mut("p-digest-zero-stripped", func(x *preconfpb.Bid) { x.Digest = x.Digest[1:] })
+		}
 		mut("p-r-bit", func(x *preconfpb.Bid) { x.Signature[rng.Intn(32)] ^= 1 << uint(rng.Intn(8)) })
 		mut("p-s-bit", func(x *preconfpb.Bid) { x.Signature[32+rng.Intn(32)] ^= 1 << uint(rng.Intn(8)) })
 		mut("p-malleate", func(x *preconfpb.Bid) {
@@ -507,9 +591,13 @@ func main() {
 		np("alias-leading-zero", func(x *preconfpb.Bid) { x.BidAmount = "0" + x.BidAmount })
 		np("alias-plus", func(x *preconfpb.Bid) { x.BidAmount = "+" + x.BidAmount })
 		np("alias-v", func(x *preconfpb.Bid) { x.Signature[64] -= 27 })
-		np("amount-garbage", func(x *preconfpb.Bid) { x.BidAmount = []string{"", "abc", "1e3", " 1", "1 ", "0x10", "1_000", "-", "+", "١٢٣"}[rng.Intn(10)] })
+		np("amount-garbage", func(x *preconfpb.Bid) {
+			x.BidAmount = []string{"", "abc", "1e3", " 1", "1 ", "0x10", "1_000", "-", "+", "١٢٣"}[rng.Intn(10)]
+		})
 		// length classes of digest and signature (every length 0..66 over the run), nil vs empty
-		np("sig-len", func(x *preconfpb.Bid) { x.Signature = append([]byte{}, append(x.Signature, 1, 2)[:(i*7+rng.Intn(67))%67]...) })
+		np("sig-len", func(x *preconfpb.Bid) {
+			x.Signature = append([]byte{}, append(x.Signature, 1, 2)[:(i*7+rng.Intn(67))%67]...)
+		})
 		np("digest-len", func(x *preconfpb.Bid) { x.Digest = append([]byte{}, append(x.Digest, 1, 2)[:(i*5+rng.Intn(35))%35]...) })
 		np("sig-nil", func(x *preconfpb.Bid) { x.Signature = nil })
 		np("digest-nil", func(x *preconfpb.Bid) { x.Digest = nil })
@@ -543,6 +631,14 @@ func main() {
 		cmut("c-p-bid-sig", true, func(x *preconfpb.PreConfirmation) { x.Bid.Signature[5] ^= 4 })
 		cmut("c-p-bid-digest", true, func(x *preconfpb.PreConfirmation) { x.Bid.Digest[5] ^= 4 })
 		cmut("c-p-digest", true, func(x *preconfpb.PreConfirmation) { x.Digest[rng.Intn(32)] ^= 1 })
+		cmut("c-p-digest-junk-prefix", true, func(x *preconfpb.PreConfirmation) { x.Digest = append(rng.Bytes(1+rng.Intn(32)), x.Digest...) })
+		cmut("c-p-digest-junk-suffix", true, func(x *preconfpb.PreConfirmation) {
+			x.Digest = append(append([]byte{}, x.Digest...), rng.Bytes(1+rng.Intn(32))...)
+		})
+		cmut("c-p-bid-digest-junk-prefix", true, func(x *preconfpb.PreConfirmation) { x.Bid.Digest = append(rng.Bytes(1+rng.Intn(32)), x.Bid.Digest...) })
+		if c.Digest[0] == 0 {
+			cmut("c-p-digest-zero-stripped", true, func(x *preconfpb.PreConfirmation) { x.Digest = x.Digest[1:] })
+		}
 		cmut("c-p-sig-s", true, func(x *preconfpb.PreConfirmation) { x.Signature[40] ^= 2 })
 		cmut("c-p-malleate", true, func(x *preconfpb.PreConfirmation) {
 			sv := new(big.Int).SetBytes(x.Signature[32:64])
